@@ -81,8 +81,24 @@ func genC17(tier string, seed uint64, emit func(string)) {
 	for _, p := range wordsUpTo(alt, altLen) {
 		emit("glob " + hx(p) + " " + strings.Join(altKeys, " "))
 	}
+	// a third complete enumeration over the characters that mean something to path, shell and character-class matchers
+	// (separators, newline, dash, class brackets, negation, braces, a high byte): patterns up to length 3 against every key
+	// up to length 2, through glob.Compile and through KEYS / SCAN MATCH of the populated example store
+	for _, extra := range []string{"/\n-", "]^{", "},|", ":! ", "\t~#", "%@&", "=;'", "\"<>"} {
+		alpha := append([]byte("a*?"), extra...)
+		var keys []string
+		for _, k := range wordsUpTo(append([]byte("a"), extra...), 2) {
+			keys = append(keys, hx(k))
+		}
+		for _, p := range wordsUpTo(alpha, 3) {
+			emit("glob " + hx(p) + " " + strings.Join(keys, " "))
+			if extra != "},|" {
+				emit("keyscan " + hx(p) + " " + strings.Join(keys[1:], " "))
+			}
+		}
+	}
 	// longer random patterns and keys over a wider ASCII alphabet (every regexp metacharacter)
-	wide := []byte("ab*?.+()|^${}[]\\-xyzEQdDwWsSbBAzZpPnrtfvx09 \t")
+	wide := []byte("ab*?.+()|^${}[]\\-xyzEQdDwWsSbBAzZpPnrtfvx09 \t/:\n")
 	n := 3000
 	if tier == "thorough" {
 		n = 100000
